@@ -126,15 +126,13 @@ Definition check_schema (ts : list N) : list N :=
 Definition check_C18 (ts : list N) : list N :=
   match ts with
   | 1 :: r => check_schema r
-  (* kind 3: the witness of S05_multihomed_refuted on the real handler: a DISCOVER answered on one address,
-     then a REQUEST naming that address received on ANOTHER address of the server -- uninterrupted (a1 a2)
-     and after a restart (b1 b2); 1 = answered.  That the restarted server drops it (the identifier was only
-     remembered in memory) is the recorded finding, class 1; anything else that differs is a violation *)
+  (* kind 3: the witness of S05_multihomed_refuted on the real code: a DISCOVER answered on one address of the
+     host, then a REQUEST naming that address received on ANOTHER address of the server -- uninterrupted
+     (a1 a2) and after a restart (b1 b2: a new service object around the reopened store); 1 = answered.  The
+     identifiers handed to the handler are the receive loop's own.  Since the repair 726412e (every IPv4
+     address of the host counts) both runs answer; a difference is a violation again *)
   | [3; a1; a2; b1; b2] =>
-    if negb (a1 =? b1) then v_viol 6
-    else if a2 =? b2 then v_ok 120
-    else if (a2 =? 1) && (b2 =? 0) then v_known 1
-    else v_viol 6
+    if negb (a1 =? b1) || negb (a2 =? b2) then v_viol 6 else v_ok 120
   | 2 :: r => match check_pool 18 r with
               | [0; mask] => [0; 100 + N.land mask 96]     (* +32: the history contained a restart, +64: a kill *)
               | v => v
